@@ -86,7 +86,20 @@ def impl(case):
     if isinstance(st, str):
         style = STYLES[st]() if case.get("style_instance", True) else STYLES[st]
     else:
-        style = R.AbstractStyle(st[0], st[1], st[2])
+        how = (len(st[0]) + len(case.get("lines", []))) % 3
+        if how == 0:
+            style = R.AbstractStyle(st[0], st[1], st[2])
+        elif how == 1:
+            # a subclass of a built-in style that replaces the three strings after the base constructor has run
+            class Restyled(R.AsciiStyle):
+                def __init__(self, v, c, e):
+                    R.AsciiStyle.__init__(self)
+                    self.vertical, self.cont, self.end = v, c, e
+            style = Restyled(st[0], st[1], st[2])
+        else:
+            # a style instance whose strings are reassigned after construction
+            style = R.ContStyle()
+            style.vertical, style.cont, style.end = st[0], st[1], st[2]
     kw = {"style": style, "childiter": CHILDITER[case.get("childiter", "list")]}
     if case["maxlevel"] is not None or not case.get("defaults"):
         kw["maxlevel"] = case["maxlevel"]
